@@ -12,6 +12,7 @@ RULE = ("Splitter values and unrelated extra fields drawn from: text over all pl
         "Non-trivial = value is non-ASCII, empty, >1000 characters, non-str, or contains NUL/quote, or the salt is "
         "non-ASCII; distinct by (program text, inputs).")
 RULE += (" Since rounds 6-7: runs of quotes / backslashes as salts, typographic look-alikes; a quarter of the cases run with CPython's int digit limit lifted (bigger ints are then legal values); interpreter-wide settings compared around every case.")
+RULE += (' Since rounds 14-15: splitters that the conditions compare with text only, given values of every type.')
 ASSUMPTIONS = [
     "lone surrogates are excluded: they have no UTF-8 encoding, the published scheme is undefined on them",
     "ints above CPython's 4300-digit str() conversion limit are excluded: the interpreter itself refuses to print them",
